@@ -157,3 +157,40 @@ pub fn resp(arg: &str) -> String {
         }
     }
 }
+
+/// `REQG <hex>` / `RESPG <hex>`: the input is placed so that its last byte is the last byte of a readable page and the page after
+/// it is inaccessible (PROT_NONE): a parser that reads even one byte past its input — with an unaligned word load, say — dies
+/// with SIGSEGV, which the orchestrator sees as a crashed shard (C01: "without touching memory outside the input").
+pub fn guarded(arg: &str, resp: bool) -> String {
+    let data = unhex(arg.trim());
+    let page = 4096usize;
+    let n = data.len();
+    let total = (n / page + 2) * page;
+    unsafe {
+        let base = libc::mmap(std::ptr::null_mut(), total, libc::PROT_READ | libc::PROT_WRITE, libc::MAP_PRIVATE | libc::MAP_ANONYMOUS, -1, 0);
+        if base == libc::MAP_FAILED {
+            return "BAD-MMAP".into();
+        }
+        let base = base as *mut u8;
+        let guard = base.add(total - page);
+        if libc::mprotect(guard as *mut libc::c_void, page, libc::PROT_NONE) != 0 {
+            libc::munmap(base as *mut libc::c_void, total);
+            return "BAD-MPROTECT".into();
+        }
+        let start = guard.sub(n);
+        std::ptr::copy_nonoverlapping(data.as_ptr(), start, n);
+        let slice: &[u8] = std::slice::from_raw_parts(start, n);
+        let r = std::panic::catch_unwind(|| {
+            if resp {
+                match khttp::Response::parse(slice) { Ok(_) => "G OK", Err(_) => "G ERR" }
+            } else {
+                match khttp::Request::parse(slice) {
+                    Ok(rq) => { let _ = (rq.uri.path().len(), rq.uri.query().map(|q| q.len()), rq.uri.authority().map(|a| a.len())); "G OK" }
+                    Err(_) => "G ERR",
+                }
+            }
+        });
+        libc::munmap(base as *mut libc::c_void, total);
+        match r { Ok(s) => s.to_string(), Err(_) => "PANIC".into() }
+    }
+}
